@@ -27,6 +27,7 @@ func init() {
 
 func runC02(c *core.Ctx) {
 	c02ForkOwner(c)
+	c02ForkNamespace(c)
 	c02ReadBuf(c)
 	c02BodyIntact(c)
 	c.Rule("C02.keys", "A7: forkKey is built from the same roles on both sides: forkKeys{Database←dbrp.Database, RetentionPolicy←dbrp.RetentionPolicy, Measurement←measurement} as the full product dbrps×measurements; forkPoint looks up {p.Database(), p.RetentionPolicy(), p.Name()} and the same with Measurement \"\"; Task.Measurements appends the Measurement of every FromNode")
